@@ -707,33 +707,79 @@ func (x *Explorer) havocLoopMemory(fr *Frame, st *State, header *ssa.BasicBlock,
 	}
 	var locs []loc
 	seen := map[string]bool{}
+	// fieldPath: addr = root.f.g… → (root, ".f.g")
+	fieldPath := func(v ssa.Value) (ssa.Value, string) {
+		path := ""
+		for i := 0; i < 6; i++ {
+			if fa, ok := v.(*ssa.FieldAddr); ok {
+				path = "." + fieldName(fa.X.Type(), fa.Field) + path
+				v = fa.X
+				continue
+			}
+			break
+		}
+		return v, path
+	}
+	add := func(root ssa.Value, path string, t types.Type) {
+		a, ok := root.(*ssa.Alloc)
+		if !ok || a.Block() == nil || body[a.Block()] {
+			return
+		}
+		key := fmt.Sprintf("%p%s", a, path)
+		if seen[key] {
+			return
+		}
+		seen[key] = true
+		locs = append(locs, loc{a, path, t})
+	}
+	// paramStores: the field paths a hand-written callee stores through its i-th (pointer) parameter,
+	// directly or by handing the parameter on (depth-bounded)
+	var paramStores func(f *ssa.Function, i, depth int) map[string]types.Type
+	paramStores = func(f *ssa.Function, i, depth int) map[string]types.Type {
+		out := map[string]types.Type{}
+		if f == nil || depth > 2 || i >= len(f.Params) || len(f.Blocks) == 0 || !isRepoPkgPath(fnPkgPath(f)) {
+			return out
+		}
+		prm := f.Params[i]
+		for _, b2 := range f.Blocks {
+			for _, in2 := range b2.Instrs {
+				switch y := in2.(type) {
+				case *ssa.Store:
+					if root, path := fieldPath(y.Addr); root == ssa.Value(prm) && path != "" {
+						out[path] = y.Val.Type()
+					}
+				case ssa.CallInstruction:
+					for j, a := range y.Common().Args {
+						if a == ssa.Value(prm) {
+							for pth, t := range paramStores(y.Common().StaticCallee(), j, depth+1) {
+								out[pth] = t
+							}
+						}
+					}
+				}
+			}
+		}
+		return out
+	}
 	for blk := range body {
 		for _, in := range blk.Instrs {
-			sto, ok := in.(*ssa.Store)
-			if !ok {
-				continue
-			}
-			// address = Alloc or a field path of an Alloc defined outside the loop
-			path := ""
-			v := sto.Addr
-			for i := 0; i < 6; i++ {
-				if fa, ok := v.(*ssa.FieldAddr); ok {
-					path = "." + fieldName(fa.X.Type(), fa.Field) + path
-					v = fa.X
-					continue
+			switch y := in.(type) {
+			case *ssa.Store:
+				// address = Alloc or a field path of an Alloc defined outside the loop
+				root, path := fieldPath(y.Addr)
+				add(root, path, y.Val.Type())
+			case ssa.CallInstruction:
+				// an object built before the loop and handed by pointer to a helper that sets some of its
+				// fields (a row reused across iterations, filled by setter helpers)
+				for j, a := range y.Common().Args {
+					if _, isAlloc := a.(*ssa.Alloc); !isAlloc {
+						continue
+					}
+					for pth, t := range paramStores(y.Common().StaticCallee(), j, 0) {
+						add(a, pth, t)
+					}
 				}
-				break
 			}
-			a, ok := v.(*ssa.Alloc)
-			if !ok || a.Block() == nil || body[a.Block()] {
-				continue
-			}
-			key := fmt.Sprintf("%p%s", a, path)
-			if seen[key] {
-				continue
-			}
-			seen[key] = true
-			locs = append(locs, loc{a, path, sto.Val.Type()})
 		}
 	}
 	sort.Slice(locs, func(i, j int) bool {
@@ -748,8 +794,8 @@ func (x *Explorer) havocLoopMemory(fr *Frame, st *State, header *ssa.BasicBlock,
 			continue
 		}
 		o := st.mem[p.O]
-		if o == nil || o.Table != nil {
-			continue
+		if o == nil || (o.Table != nil && o.Kind != "lit") {
+			continue // fetched rows are governed by the freshness rules; a row *literal* built before the loop is plain memory
 		}
 		name := tag + "mem:" + l.a.Comment + l.path
 		switch {
@@ -1095,7 +1141,17 @@ func (x *Explorer) step(fr *Frame, st *State, in ssa.Instruction) {
 		}
 		fr.env[ins] = &Ptr{O: o.ID}
 	case *ssa.Store:
-		x.store(fr, st, x.eval(fr, st, ins.Addr), x.eval(fr, st, ins.Val), ins)
+		val := x.eval(fr, st, ins.Val)
+		// a state-touching closure put away (slice element, field) inside one iteration of a loop over
+		// data, to be run later: what it will do then — with which captured loop variables — is outside
+		// the one-iteration model (and, before Go 1.22, all such closures share the last loop variable)
+		if cv, isC := val.(*ClosureV); isC && x.touches[cv.Fn] && x.loopTag(fr, ins.Block()) != "" {
+			switch ins.Addr.(type) {
+			case *ssa.IndexAddr, *ssa.FieldAddr:
+				st.note("state-touching closure " + cv.Fn.Name() + " stored for later execution inside loop " + x.loopTag(fr, ins.Block()))
+			}
+		}
+		x.store(fr, st, x.eval(fr, st, ins.Addr), val, ins)
 	case *ssa.UnOp:
 		fr.env[ins] = x.unop(fr, st, ins)
 	case *ssa.FieldAddr:
